@@ -407,10 +407,11 @@ def check_case(case):
                 if not g["complete"] or (nid and not t["complete"]):
                     either_keys.add(key)
                     continue
+                # "at least het_freq -> heterozygous, at least hom_freq -> homozygous" (zygosity_from_freq's documented rule):
+                # a frequency exactly on a cut-off belongs to the upper class. count / depth and 1 - zygosity_freq are the
+                # same IEEE operations here and there, so exact equality is decidable (seeded change C18o moved both
+                # boundaries down by using searchsorted's default side)
                 zf = case["zyg_freq"]
-                if abs(g["freq"] - zf) < 1e-12 or abs(g["freq"] - (1 - zf)) < 1e-12:
-                    either_keys.add(key)
-                    continue
                 if zf <= g["freq"] < 1 - zf:
                     exp_keys.append(key)
             else:
@@ -441,8 +442,6 @@ def check_case(case):
                 if zf is None:
                     tz, nz = t["zyg"], g["zyg"]
                 else:
-                    if min(abs(f - b) for f in (t["freq"], g["freq"]) for b in (zf, 1 - zf)) < 1e-12:
-                        continue
                     tz, nz = (0.0 if t["freq"] < zf else 0.5), (0.0 if g["freq"] < zf else 0.5)
                 if tz != 0.0 and nz == 0.0 and key in got_h:
                     bad("hets:tumour-only", f"load_het_snps kept {key}, non-reference in the tumour {sid} and reference in the normal {nid} "
